@@ -240,6 +240,27 @@ def pqHandler : Handler DS where
   onObs := pqOnObs
   onEnd := pqOnEnd
 
+/-! ### exporter-level monitor: the proven-sound trace checker on the events of real exporters -/
+
+def expHandler : Handler TState where
+  init := {}
+  onOp := fun s _ => (s, [])
+  onObs := fun s toks =>
+    match toks with
+    | ["tr", "ev", "accept", id] => match id.toNat? with | some id => s.step (.accept id) | Option.none => s
+    | ["tr", "ev", "hand", id] => match id.toNat? with | some id => s.step (.hand id) | Option.none => s
+    | ["tr", "ev", "final", id] => match id.toNat? with | some id => s.step (.final id) | Option.none => s
+    | ["tr", "ev", "dump"] => s.step (.dump [])
+    | ["tr", "ev", "dump", ids] => match parseList ids with | some l => s.step (.dump l) | Option.none => s
+    | _ => s
+  onEnd := fun s =>
+    [match s.lost with
+     | some (id, _) => s!"prop stored=FAIL sig=C01/exporter/trace/accepted-not-stored-at-death id={id}"
+     | Option.none => "prop stored=ok",
+     match s.accepted.find? (fun id => !(s.handed.contains id)) with
+     | some id => s!"prop handed=FAIL sig=C01/exporter/trace/accepted-never-handed id={id}"
+     | Option.none => "prop handed=ok"]
+
 /-! ### codec model -/
 
 def showBytesRes : Except String (List Nat) → String
@@ -269,4 +290,5 @@ def codecHandler : Handler Unit where
 end OtelVerif.Drivers.C01
 
 def main : IO UInt32 :=
-  runMulti [("c01-pq", run OtelVerif.Drivers.C01.pqHandler), ("c01-codec", run OtelVerif.Drivers.C01.codecHandler)]
+  runMulti [("c01-pq", run OtelVerif.Drivers.C01.pqHandler), ("c01-codec", run OtelVerif.Drivers.C01.codecHandler),
+            ("c01-exporter", run OtelVerif.Drivers.C01.expHandler)]
